@@ -1,4 +1,5 @@
 import NomtModel.Store.WalkerSimTop
+import NomtModel.Store.WalkerExample
 /-!
 # C13 — the sub-trie walk of a commit worker (`PageWalker::new(root, Some(parent_page))`)
 
@@ -43,5 +44,14 @@ theorem T13_walker_child_roots_partial (hs : H.Sound) (ps : PageSet Node) (root 
   intro o ho
   obtain ⟨P, pg, d, b, e, hl, hm, _⟩ := hp o ho
   exact ⟨P, pg, d, b, e, hl, hm⟩
+
+/-- non-vacuity: the hypotheses hold for the two-key trie whose leaves sit in the child page `[0]` of the root page, a page
+set holding both pages, parent page ROOT and the script that replaces the terminal `0^7` (`Store/WalkerExample.lean`) -/
+example : ∃ w' roots pages, (Walker.startP Ex2.root2 (some []) false).runM TH Ex2.ps2 Ex2.steps2 = .ok w' ∧
+    w'.conclude TH = .ok (.childPageRoots roots pages) ∧
+    (∀ e ∈ roots, e.2 = specNode TH Ex2.S2 e.1.path ∧ e.1.path.length = 6) := by
+  obtain ⟨w', roots, pages, h1, h2, h3, _⟩ := T13_walker_child_roots_partial TH TH_sound Ex2.ps2 Ex2.root2 []
+    Ex2.keys2 Ex2.keys2 Ex2.script2 Ex2.psok2 Ex2.rep2 Ex2.scope2 false
+  exact ⟨w', roots, pages, h1, h2, h3⟩
 
 end Nomt.C13
